@@ -1,1 +1,204 @@
-//! C02 harnesses (not written yet).
+//! C02 — division and remainder are exact for every non-zero divisor; a zero divisor panics.
+//!
+//! Oracle for `(q, r) = a.div_rem(b)`: both have a's length, canonical raw storage,
+//! `q*b + r == a` and `r < b` (which pins q = floor(a/b), r = a mod b uniquely). Long division
+//! is a loop over `sig(a) - sig(b) + 1` steps, each a multi-word compare, subtract and shift, so
+//! the scopes bound the quotient: all values for 8-bit dividends, quotient < 16 elsewhere.
+use crate::big::{m128, Big};
+use crate::nd;
+use crate::scopes::*;
+use bva::{Bit, BitVector, Bv, Bvd, Bvf};
+
+/// q*b for q < 16, loop-free and without a symbolic multiplication.
+#[inline(always)]
+fn mul_small(q: Big, b: Big) -> Big {
+    let mut acc = Big::ZERO;
+    if q.bit(0) {
+        acc = acc.add(b);
+    }
+    if q.bit(1) {
+        acc = acc.add(b.shl(1));
+    }
+    if q.bit(2) {
+        acc = acc.add(b.shl(2));
+    }
+    if q.bit(3) {
+        acc = acc.add(b.shl(3));
+    }
+    acc
+}
+
+/// `div_rem` exists for bit-vector divisors only; native integer divisors go through `/`, `%`.
+macro_rules! divrem {
+    (($t:ty), $a:expr, $b:expr) => {
+        $a.div_rem::<$t>(&$b)
+    };
+    (int, $a:expr, $b:expr) => {
+        (&$a / &$b, &$a % &$b)
+    };
+}
+
+/// 8-bit dividend against the native quotient/remainder; every operator form.
+macro_rules! h_div8 {
+    ($name:ident, $unw:literal, $maxlen:literal, $kind:tt, $b:expr) => {
+        harness_cfs!($name, $unw, {
+            let (a, ra) = f8x1(anylen($maxlen));
+            let (b, rb) = $b;
+            nd::assume(!rb.v.is_zero());
+            let n = ra.len;
+            let av = ra.v.lo as u8;
+            w!(rb.len > 8 && rb.v.lo < 256 && rb.v.hi == 0 && rb.v.lo <= av as u128, "divisor longer than the dividend's capacity but small in value");
+            w!(rb.v.lo > av as u128 || rb.v.hi != 0, "divisor greater than the dividend");
+            w!(n > 1 && rb.v.lo == 1 && rb.v.hi == 0, "division by one");
+            let (wq, wr) = if rb.v.hi != 0 || rb.v.lo > 255 {
+                (0u8, av)
+            } else {
+                (av / (rb.v.lo as u8), av % (rb.v.lo as u8))
+            };
+            let form = nd::upto(2);
+            let (q, r) = if form == 0 {
+                divrem!($kind, a, b)
+            } else if form == 1 {
+                (&a / &b, &a % &b)
+            } else {
+                let mut q = a;
+                q /= &b;
+                let mut r = a;
+                r %= &b;
+                (q, r)
+            };
+            let (q, r) = (q.into_raw(), r.into_raw());
+            assert!(q.len == n && r.len == n, "C02: quotient/remainder length differs from the dividend's");
+            assert!(q.v == Big::lo(wq as u128), "C02: quotient storage != floor(a / b)");
+            assert!(r.v == Big::lo(wr as u128), "C02: remainder storage != a mod b");
+            assert!(b.into_raw() == rb, "C02: divisor modified");
+        });
+    };
+}
+
+// quick: dividends up to 4 bits (unwind = 4 + 2); thorough: all 8-bit dividends
+h_div8!(c02_t_div8_l3_f8x1, 5, 3, (Bvf<u8, 1>), f8x1(anylen(8)));
+h_div8!(c02_t_div8_l3_f8x2, 5, 3, (Bvf<u8, 2>), f8x2(anylen(16)));
+h_div8!(c02_t_div8_l3_u64, 9, 3, int, iu64());
+h_div8!(c02_t_div8_f8x1, 10, 8, (Bvf<u8, 1>), f8x1(anylen(8)));
+h_div8!(c02_t_div8_f8x2, 10, 8, (Bvf<u8, 2>), f8x2(anylen(16)));
+h_div8!(c02_t_div8_f16x1, 10, 8, (Bvf<u16, 1>), f16x1(anylen(16)));
+h_div8!(c02_t_div8_bvd1, 10, 8, (Bvd), bvd1(anylen(64)));
+h_div8!(c02_t_div8_bvfix, 10, 8, (Bv), bvfix(anylen(128)));
+h_div8!(c02_t_div8_u8, 10, 8, int, iu8());
+h_div8!(c02_t_div8_u16, 10, 8, int, iu16());
+h_div8!(c02_t_div8_u32, 10, 8, int, iu32());
+h_div8!(c02_t_div8_u64, 10, 8, int, iu64());
+h_div8!(c02_t_div8_u128, 10, 8, int, iu128());
+h_div8!(c02_t_div8_usize, 10, 8, int, iusize());
+
+/// Wider dividends with the quotient bounded below 16 (sig(a) - sig(b) <= 3).
+macro_rules! h_divq {
+    ($name:ident, $unw:literal, $kind:tt, $a:expr, $b:expr) => {
+        harness_cfs!($name, $unw, {
+            let (a, ra) = $a;
+            let (b, rb) = $b;
+            nd::assume(!rb.v.is_zero());
+            let n = ra.len;
+            nd::assume(ra.v.sig() <= rb.v.sig() + 3);
+            w!(rb.len > n && rb.v.sig() <= ra.v.sig(), "divisor longer than the dividend, quotient non-zero");
+            w!(ra.v.sig() == rb.v.sig() + 3, "four quotient bits");
+            w!(ra.v.sig() > 8 && rb.v.sig() > 8, "dividend and divisor span more than one byte");
+            let (q, r) = divrem!($kind, a, b);
+            let (q, r) = (q.into_raw(), r.into_raw());
+            assert!(q.len == n && r.len == n, "C02: quotient/remainder length differs from the dividend's");
+            assert!(q.v.fits(4), "C02: quotient exceeds the bound implied by the significant bits");
+            assert!(r.v.cmp(rb.v) == std::cmp::Ordering::Less, "C02: remainder >= divisor");
+            assert!(mul_small(q.v, rb.v).add(r.v) == ra.v, "C02: q*b + r != a");
+            assert!(q.v.fits(n) && r.v.fits(n), "C02: storage bits at index >= len in quotient/remainder");
+            assert!(a.into_raw() == ra && b.into_raw() == rb, "C02: operand modified");
+        });
+    };
+}
+
+h_divq!(c02_t_divq_f8x2_f8x2, 6, (Bvf<u8, 2>), f8x2(anylen(16)), f8x2(anylen(16)));
+h_divq!(c02_t_divq_f8x2_f8x3, 6, (Bvf<u8, 3>), f8x2(anylen(16)), f8x3(anylen(24)));
+h_divq!(c02_t_divq_f8x2_f16x2, 6, (Bvf<u16, 2>), f8x2(anylen(16)), f16x2(anylen(32)));
+h_divq!(c02_t_divq_f8x2_u32, 6, int, f8x2(anylen(16)), iu32());
+h_divq!(c02_t_divq_f16x2_f8x3, 6, (Bvf<u8, 3>), f16x2(anylen(32)), f8x3(anylen(24)));
+h_divq!(c02_t_divq_f64x2_f64x2, 6, (Bvf<u64, 2>), f64x2(anylen(128)), f64x2(anylen(128)));
+h_divq!(c02_t_divq_f64x2_f64x3, 6, (Bvf<u64, 3>), f64x2(anylen(128)), f64x3(anylen(192)));
+
+/// Same oracle with the quotient bounded below 4 (cheaper: quick tier).
+macro_rules! h_divq2 {
+    ($name:ident, $unw:literal, $kind:tt, $a:expr, $b:expr) => {
+        harness_cfs!($name, $unw, {
+            let (a, ra) = $a;
+            let (b, rb) = $b;
+            nd::assume(!rb.v.is_zero());
+            let n = ra.len;
+            nd::assume(ra.v.sig() <= rb.v.sig() + 1);
+            w!(rb.len > n && rb.v.sig() <= ra.v.sig(), "divisor longer than the dividend, quotient non-zero");
+            w!(ra.v.sig() == rb.v.sig() + 1, "two quotient bits");
+            w!(ra.v.sig() < rb.v.sig(), "divisor has more significant bits: quotient zero");
+            let (q, r) = divrem!($kind, a, b);
+            let (q, r) = (q.into_raw(), r.into_raw());
+            assert!(q.len == n && r.len == n, "C02: quotient/remainder length differs from the dividend's");
+            assert!(q.v.fits(2), "C02: quotient exceeds the bound implied by the significant bits");
+            assert!(r.v.cmp(rb.v) == std::cmp::Ordering::Less, "C02: remainder >= divisor");
+            assert!(mul_small(q.v, rb.v).add(r.v) == ra.v, "C02: q*b + r != a");
+            assert!(q.v.fits(n) && r.v.fits(n), "C02: storage bits at index >= len in quotient/remainder");
+            assert!(a.into_raw() == ra && b.into_raw() == rb, "C02: operand modified");
+        });
+    };
+}
+
+h_divq2!(c02_q_divq2_f8x2_f8x3, 4, (Bvf<u8, 3>), f8x2(anylen(16)), f8x3(anylen(24)));
+h_divq2!(c02_t_divq2_f16x2_f16x2, 4, (Bvf<u16, 2>), f16x2(anylen(32)), f16x2(anylen(32)));
+h_divq2!(c02_t_divq2_f64x2_f64x3, 4, (Bvf<u64, 3>), f64x2(anylen(128)), f64x3(anylen(192)));
+h_divq2!(c02_t_divq2_f64x2_u128, 4, int, f64x2(anylen(128)), iu128());
+// Heap-backed dividends allocate by length (zeros, clone, conversion of the divisor,
+// resize): concrete lengths, symbolic contents.
+h_divq2!(c02_q_divq2_bvd2_l70_bvd2_l100, 4, (Bvd), bvd2(70), bvd2(100));
+h_divq2!(c02_q_divq2_f64x2_l70_f64x3_l130, 4, (Bvf<u64, 3>), f64x2(70), f64x3(130));
+h_divq2!(c02_q_divq2_bvfix_l20_bvfix_l128, 4, (Bv), bvfix(20), bvfix(128));
+h_divq2!(c02_q_divq2_bvd2_l65_f64x3_l130, 4, (Bvf<u64, 3>), bvd2(65), f64x3(130));
+h_divq2!(c02_t_divq2_bvfix_l100_bvfix_l128, 4, (Bv), bvfix(100), bvfix(128));
+h_divq2!(c02_t_divq2_bvdyn2_l128_bvfix_l64, 4, (Bv), bvdyn2(128), bvfix(64));
+h_divq2!(c02_t_divq2_bvd2_l128_u64, 4, int, bvd2(128), iu64());
+h_divq!(c02_t_divq_bvd2_l128_bvd2_l128, 6, (Bvd), bvd2(128), bvd2(128));
+h_divq!(c02_t_divq_bvfix_l128_bvdyn2_l100, 6, (Bv), bvfix(128), bvdyn2(100));
+
+// ---- zero divisor: every form must panic, for every dividend ---------------------------------
+// The zero check is the first statement of div_rem, but CBMC still encodes the (dead) division
+// behind it, so the scopes are small: what matters here is that every *form* and pairing
+// reaches the check, not the values.
+
+macro_rules! h_divzero {
+    ($name:ident, $unw:literal, $kind:tt, $a:expr, $b:expr, |$av:ident, $bv:ident| $call:block) => {
+        harness_mp_cfs!($name, $unw, {
+            let ($av, ra) = $a;
+            let ($bv, rb) = $b;
+            nd::assume(rb.v.is_zero());
+            $call;
+            never!("NEVER:division by a zero-valued divisor returned");
+        });
+    };
+}
+
+h_divzero!(c02_q_divzero_divrem_f8x1_f8x2, 4, vec, f8x1(anylen(3)), f8x2(anylen(16)), |a, b| { let _ = a.div_rem::<Bvf<u8, 2>>(&b); });
+h_divzero!(c02_q_divzero_div_f8x1_f8x2, 4, vec, f8x1(anylen(3)), f8x2(anylen(16)), |a, b| { let _ = &a / &b; });
+h_divzero!(c02_q_divzero_rem_f8x1_f8x2, 4, vec, f8x1(anylen(3)), f8x2(anylen(16)), |a, b| { let _ = &a % &b; });
+h_divzero!(c02_q_divzero_divassign_f8x1_f8x2, 4, vec, f8x1(anylen(3)), f8x2(anylen(16)), |a, b| { let mut x = a; x /= &b; });
+h_divzero!(c02_q_divzero_remassign_f8x1_f8x2, 4, vec, f8x1(anylen(3)), f8x2(anylen(16)), |a, b| { let mut x = a; x %= b; });
+h_divzero!(c02_q_divzero_div_f8x1_empty, 4, vec, f8x1(anylen(3)), f16x1(0), |a, b| { let _ = a / b; });
+h_divzero!(c02_t_divzero_div_f8x1_u8, 9, int, f8x1(anylen(3)), iu8(), |a, b| { let _ = a / b; });
+h_divzero!(c02_q_divzero_rem_f8x1_u128, 4, int, f8x1(anylen(3)), iu128(), |a, b| { let _ = &a % &b; });
+h_divzero!(c02_q_divzero_divassign_f8x1_u32, 5, int, f8x1(anylen(3)), iu32(), |a, b| { let mut x = a; x /= b; });
+h_divzero!(c02_t_divzero_div_f8x1_bvd1, 4, vec, f8x1(anylen(3)), bvd1(anylen(64)), |a, b| { let _ = &a / &b; });
+h_divzero!(c02_q_divzero_rem_f8x1_bvfix, 4, vec, f8x1(anylen(3)), bvfix(anylen(128)), |a, b| { let _ = &a % &b; });
+h_divzero!(c02_q_divzero_div_f64x2_l3_f64x2, 4, vec, f64x2(3), f64x2(anylen(128)), |a, b| { let _ = &a / &b; });
+h_divzero!(c02_q_divzero_divrem_bvd1_l3_bvd2, 4, vec, bvd1(3), bvd2(70), |a, b| { let _ = a.div_rem::<Bvd>(&b); });
+h_divzero!(c02_q_divzero_div_bvd1_l3_u64, 4, int, bvd1(3), iu64(), |a, b| { let _ = &a / &b; });
+h_divzero!(c02_t_divzero_remassign_bvd1_l3_f8x2, 9, vec, bvd1(3), f8x2(anylen(16)), |a, b| { let mut x = a; x %= &b; });
+h_divzero!(c02_q_divzero_div_bvd1_l3_empty, 4, vec, bvd1(3), bvd0(0), |a, b| { let _ = &a / &b; });
+h_divzero!(c02_t_divzero_divrem_bvfix_l3_bvfix, 4, vec, bvfix(3), bvfix(anylen(128)), |a, b| { let _ = a.div_rem::<Bv>(&b); });
+h_divzero!(c02_t_divzero_div_bvfix_l3_bvdyn1, 4, vec, bvfix(3), bvdyn1(40), |a, b| { let _ = &a / &b; });
+h_divzero!(c02_t_divzero_rem_bvdyn1_l3_bvfix, 4, vec, bvdyn1(3), bvfix(anylen(128)), |a, b| { let _ = &a % &b; });
+h_divzero!(c02_q_divzero_divassign_bvfix_l3_u16, 5, int, bvfix(3), iu16(), |a, b| { let mut x = a; x /= b; });
+h_divzero!(c02_q_divzero_remassign_bvdyn1_l3_u8, 9, int, bvdyn1(3), iu8(), |a, b| { let mut x = a; x %= &b; });
